@@ -20,6 +20,8 @@ import (
 	"go/token"
 	"path/filepath"
 	"strings"
+	"unicode"
+	"unicode/utf8"
 
 	"k8s.io/klog/v2"
 
@@ -70,18 +72,7 @@ func goTrackerLocalName(tracker namer.ImportTracker, localPkg string, t types.Na
 	dirs := strings.Split(path, namer.GoSeperator)
 	for n := len(dirs) - 1; n >= 0; n-- {
 		// follow kube convention of not having anything between directory names
-		name := strings.Join(dirs[n:], "")
-		name = strings.ReplaceAll(name, "_", "")
-		// These characters commonly appear in import paths for go
-		// packages, but aren't legal go names. So we'll sanitize.
-		name = strings.ReplaceAll(name, ".", "")
-		name = strings.ReplaceAll(name, "-", "")
-		// If the import name is a Go keyword, prefix with an underscore.
-		// (Before looking for collisions: two packages whose names are
-		// the same keyword must not both be called "_keyword".)
-		if token.Lookup(name).IsKeyword() {
-			name = "_" + name
-		}
+		name := importName(strings.Join(dirs[n:], ""))
 		if _, found := tracker.PathOf(name); found || name == localLeaf {
 			// This name collides with some other package.
 			// Or, this name is tne same name as the local package,
@@ -94,4 +85,27 @@ func goTrackerLocalName(tracker namer.ImportTracker, localPkg string, t types.Na
 		return name
 	}
 	panic("can't find import for " + path)
+}
+
+// importName turns the concatenated directory names of an import path into a
+// legal Go package name.  Underscores are dropped (kube convention), as is
+// everything else which commonly appears in import paths but is not legal in a
+// Go name ('.', '-', '~', '+', ...).  A name which is empty, starts with a
+// digit or is a Go keyword is made legal.
+func importName(s string) string {
+	name := strings.Map(func(r rune) rune {
+		if unicode.IsLetter(r) || unicode.IsDigit(r) {
+			return r
+		}
+		return -1
+	}, s)
+	if name == "" {
+		name = "pkg"
+	}
+	// (Before looking for collisions: two packages whose names are the
+	// same keyword must not both be called "_keyword".)
+	if first, _ := utf8.DecodeRuneInString(name); unicode.IsDigit(first) || token.Lookup(name).IsKeyword() {
+		name = "_" + name
+	}
+	return name
 }
